@@ -18,6 +18,7 @@ import Abmarl.Model.WrappersDriver
 import Abmarl.Model.GridSimDriver
 import Abmarl.Model.MemberDriver
 import Abmarl.Model.ExamplesDriver
+import Abmarl.Model.ReachDriver
 /-! Line-protocol driver: one request per line on stdin, one reply per line on stdout. -/
 open Abmarl
 
@@ -60,8 +61,8 @@ def dispatch (line : String) : String :=
       | "ghist" => GridSimDriver.handleHist args
       | "gwinv" => GridSimDriver.handleWInv args
       | "gmember" => MemberDriver.handle args
-      | "gexample" => ExamplesDriver.handle args
-      | "mgrx" => ExamplesDriver.handleMgr args
+      | "gexample" => ReachDriver.gexample args
+      | "mgrx" => ReachDriver.mgrx args
       | "ping" => some (.list (.atom "pong" :: args))
       | _ => none
     match r with
